@@ -15,7 +15,7 @@ def patterns(ctx, d):
         perm = key_tuples(rng, 2, 160 if ctx.quick else 3000, ['perm', 'subset', 'small', 'fullbin'])
         pairs += [(perm[i], perm[i + 1]) for i in range(0, len(perm) - 1, 2)]
         return pairs
-    n = {3: 60, 4: 30, 5: 8}.get(d, 4) if ctx.quick else {3: 1500, 4: 800, 5: 300}.get(d, 60)
+    n = {3: 60, 4: 30, 5: 8}.get(d, 4) if ctx.quick else {3: 400, 4: 150, 5: 60}.get(d, 24)
     ts = key_tuples(rng, d, 2 * n)
     return [(ts[2 * i], ts[2 * i + 1]) for i in range(n)]
 
@@ -28,7 +28,11 @@ def run_products(ctx, ops, dmax_all, extra_dims, n_custom, wrapper_pass=True, fr
     for d in extra_dims:
         for _ in range(2 if ctx.quick else 6):
             cfgs.append(('sig', [ctx.rng.choice((1, -1, 0)) for _ in range(d)], None, None))
+    if not ctx.quick:
+        ctx.rng.shuffle(cfgs)        # so that a run cut short by the time budget is not biased towards small dimensions
     for tag, sig, start, basis in cfgs:
+        if ctx.over_budget():
+            continue
         alg = cache.get(sig, start, basis)
         tok = tok_of(alg, basis)
         desc = {'sig': sig, 'basis': basis}
